@@ -56,9 +56,9 @@ func (e *retryEngine) Gen(rng *rand.Rand, tier string, n int, emit func(string))
 	emit("t1a0c1 P la,si start dial+:10 ack+:0 pub:1:1" + tail)                                                                                 // D6: silent broker on a retransmission
 	emit("t1a0c0 P ok,wf,la,ok,si pub:1:2 sub:61.2 start pub:2:0 pub:3:0 dial- pub:4:0 unsub:61 dial+:40000 pub:5:1 dial+:40100 ack+:1" + tail) // D22: queued Subscribe times out, later Unsubscribe overtakes it
 	emit("t1a0c0 P si,ok start dial+:10 ack+:0 close sub:61.1 unsub:61" + tail)                                                                 // D22 minimal
-	emit("t0a0c0 P ok,ok,la start dial+:10 ack+:0 sub:61.1 sub:62.1 close dial+:20 ack+:0" + tail)            // re-subscription of the first of two filters interrupted, then the session is kept
+	emit("t0a0c0 P ok,ok,la start dial+:10 ack+:0 sub:61.1 sub:62.1 close dial+:20 ack+:0" + tail)                                              // re-subscription of the first of two filters interrupted, then the session is kept
 	emit("t0a0c0 P ok,ok,ok,lr start dial+:10 ack+:0 sub:61.1 sub:62.2 sub:632f23.0 close dial+:20 ack+:0" + tail)
-	emit("t0a1c0 P ok,ok,wf start dial+:10 ack+:0 sub:61.1,62.0 sub:62.1 close dial+:20 ack+:1" + tail)        // AlwaysResubscribe, interrupted
+	emit("t0a1c0 P ok,ok,wf start dial+:10 ack+:0 sub:61.1,62.0 sub:62.1 close dial+:20 ack+:1" + tail) // AlwaysResubscribe, interrupted
 	emit("t1a0c1 P si start dial+:10 ack+:0 pub:1:2" + tail)
 	emit("t1a0c1 P ok,si start dial+:10 ack+:0 pub:1:2" + tail)
 	emit("t1a0c1 P si start dial+:10 ack+:0 sub:61.1,62.0" + tail)
@@ -77,23 +77,26 @@ func (e *retryEngine) Gen(rng *rand.Rand, tier string, n int, emit func(string))
 	emit("t0a0c0 P - start disc dial+:10 ack-")
 	emit("t0a0c0 P - pub:1:1 start disc dial-")
 	// cancellation of the context given to Connect, before / after the first connection succeeded; protocol error
-	emit("t0a0c0 P - pub:1:1 start cancel dial+:10 ack+:0")                  // while the first dial is in flight
-	emit("t0a0c0 P - pub:1:1 start dial+:10 cancel ack+:0 dial+:20 ack+:0")   // while waiting for the first CONNACK
-	emit("t0a0c0 P - start dial- cancel dial+:10 ack+:0")                     // during the second dial
+	emit("t0a0c0 P - pub:1:1 start cancel dial+:10 ack+:0")                 // while the first dial is in flight
+	emit("t0a0c0 P - pub:1:1 start dial+:10 cancel ack+:0 dial+:20 ack+:0") // while waiting for the first CONNACK
+	emit("t0a0c0 P - start dial- cancel dial+:10 ack+:0")                   // during the second dial
 	emit("t0a0c0 P - start dial+:10 ack- cancel dial+:20 ack+:0")
-	emit("t0a0c0w1 P - start dial- cancel wait dial+:10 ack+:0")              // while waiting to redial
+	emit("t0a0c0w1 P - start dial- cancel wait dial+:10 ack+:0") // while waiting to redial
 	emit("t0a0c0w1 P - start dial+:10 ack- pub:1:1 cancel wait dial+:20")
-	emit("t0a0c0 P - cancel start dial+:10 ack+:0")                           // already cancelled when Connect is called
+	emit("t0a0c0 P - cancel start dial+:10 ack+:0")                                       // already cancelled when Connect is called
 	emit("t0a0c0 P - start dial+:10 ack+:0 cancel pub:1:1 close dial+:20 ack+:1 pub:2:2") // after the first success: no effect
 	emit("t0a0c0 P - start dial+:10 ack+:0 pub:1:1 bad pub:2:1 dial+:20 ack+:1 bad dial+:30 ack+:1")
+	// the write of CONNECT itself fails on a freshly dialled transport (first connection and a redial)
+	emit("t0a0c0 P - pub:1:1 start dialw:10 dial+:20 ack+:0 pub:2:1 close dialw:30 dialw:40 dial+:50 ack+:1")
+	emit("t0a0c0 P - start dialw:10 disc")
 	// long back-off (w1): events land while the loop waits to redial; `wait` = the timer fires
-	emit("t0a0c0w1 P - start dial+:10 ack+:0 pub:1:1 close pub:2:1 disc")                               // Disconnect while waiting to redial: no further dial
-	emit("t0a0c0w1 P - start dial- disc")                                                               // … before any connection was established
-	emit("t0a0c0w1 P - start dial+:10 ack- pub:1:1 disc")                                               // … after a refused CONNACK
-	emit("t0a0c0w1 P - start dial+:10 ack+:0 pub:1:1 close wait disc dial+:20 ack-")                    // Disconnect while dialling, dial succeeds, CONNECT refused
+	emit("t0a0c0w1 P - start dial+:10 ack+:0 pub:1:1 close pub:2:1 disc")            // Disconnect while waiting to redial: no further dial
+	emit("t0a0c0w1 P - start dial- disc")                                            // … before any connection was established
+	emit("t0a0c0w1 P - start dial+:10 ack- pub:1:1 disc")                            // … after a refused CONNACK
+	emit("t0a0c0w1 P - start dial+:10 ack+:0 pub:1:1 close wait disc dial+:20 ack-") // Disconnect while dialling, dial succeeds, CONNECT refused
 	emit("t0a0c0w1 P - start dial+:10 ack+:0 pub:1:1 close wait disc dial+:20 ack+:1")
 	emit("t0a0c0w1 P - start dial+:10 ack+:0 pub:1:1 close wait disc dial-")
-	emit("t0a0c0w1 P - start dial+:10 ack+:0 pub:1:1 close wait dial+:20 disc ack-")                    // Disconnect while connecting
+	emit("t0a0c0w1 P - start dial+:10 ack+:0 pub:1:1 close wait dial+:20 disc ack-")                                                             // Disconnect while connecting
 	emit("t0a0c0w1 P la start dial- wait dial- wait dial+:10 ack- wait dial+:20 ack+:0 pub:1:1 wait dial+:30 ack+:1 close wait dial+:40 ack+:1") // back-off doubling, clamp, reset
 	if tier == "thorough" {
 		// all single- and double-fault plans over every position of short histories
@@ -260,7 +263,12 @@ func genRetryScript(rng *rand.Rand) string {
 			evs = append(evs, fmt.Sprintf("dial+:%d", idStart))
 			idStart += 100
 		case x < 12:
-			evs = append(evs, "dial-")
+			if rng.Intn(3) == 0 {
+				evs = append(evs, fmt.Sprintf("dialw:%d", idStart))
+				idStart += 100
+			} else {
+				evs = append(evs, "dial-")
+			}
 			if rng.Intn(10) == 0 {
 				evs = append(evs, "cancel")
 			}
@@ -348,7 +356,7 @@ func (e *retryEngine) Exec(f []string) Result {
 		}
 	}
 	for tag, pat := range map[string]string{"qos2": ":2 ", "subscribe": "sub:", "unsubscribe": "unsub:", "session-lost": "ack+:0", "connack-refused": "ack-", "connack-never": "ack0",
-		"dial-failure": "dial-", "peer-close": "close", "protocol-error": "bad", "context-cancel": "cancel", "timer": "wait", "inbound": "in:", "handle": "handle:", "disconnect": "disc", "before-connect": ""} {
+		"dial-failure": "dial-", "connect-write-failure": "dialw:", "peer-close": "close", "protocol-error": "bad", "context-cancel": "cancel", "timer": "wait", "inbound": "in:", "handle": "handle:", "disconnect": "disc", "before-connect": ""} {
 		if pat != "" && strings.Contains(script+" ", pat) {
 			r.Tags = append(r.Tags, "has:"+tag)
 		}
